@@ -426,6 +426,10 @@ func (p DevUpgradeImageAnsPayload) MarshalBinary() ([]byte, error) {
 		return nil, errors.New("lorawan/applayer/firmwaremanagement: nextFirmwareVersion must be nil when UpImageStatus != 3 due no valid firmware present")
 	}
 
+	if p.Status.IsFirmwareImageValid() && p.nextFirmwareVersion == nil {
+		return nil, errors.New("lorawan/applayer/firmwaremanagement: nextFirmwareVersion must not be nil when UpImageStatus = 3")
+	}
+
 	b := make([]byte, p.Size())
 	b[0] = uint8(p.Status.UpImageStatus) & 0x3
 
